@@ -14,11 +14,24 @@ import (
 	"golang.org/x/tools/go/ssa/ssautil"
 )
 
-const (
-	repoDir  = "/repo"
-	verifDir = "/verif"
-	modPath  = "github.com/jub0bs/cors"
+const modPath = "github.com/jub0bs/cors"
+
+// The registered commands always run /verif against /repo. The two overrides
+// exist only for development: running the checks against a scratch worktree
+// that carries a seeded defect (GOSYM_REPO) and keeping that run's evidence,
+// replays and build files out of /verif (GOSYM_VERIF; must contain harness/
+// and known_findings.json).
+var (
+	repoDir  = envOr("GOSYM_REPO", "/repo")
+	verifDir = envOr("GOSYM_VERIF", "/verif")
 )
+
+func envOr(k, d string) string {
+	if v := os.Getenv(k); v != "" {
+		return v
+	}
+	return d
+}
 
 // harness package directory (under /verif/harness) -> directory inside /repo
 var pkgDirs = map[string]string{
